@@ -50,16 +50,23 @@ func CheckPackageOnly(
 		reportedTypes := make(map[string]bool)
 		context.reportedTypes = &reportedTypes
 
+		// Selected names ("Sel" in "x.Sel") are judged with their selector expression, not on their own
+		selected := make(map[*ast.Ident]bool)
+
 		ast.Inspect(file, func(n ast.Node) bool {
 			switch node := n.(type) {
 			case *ast.SelectorExpr:
+				selected[node.Sel] = true
 				// Check selector expressions like "pkg.Type" or "pkg.Function"
 				if v := findSelectorExprViolation(&context, node); v != nil {
 					violations = append(violations, *v)
 				}
 
 			case *ast.Ident:
-				// Check identifier usage for local package objects
+				if selected[node] {
+					return true
+				}
+				// Check identifier usage for local package objects and for objects of dot-imported packages
 				if v := findIdentViolation(&context, node); v != nil {
 					violations = append(violations, *v)
 				}
@@ -156,10 +163,12 @@ func findIdentViolation(
 		return nil
 	}
 
-	// Only check local package objects (imports are handled by selector expressions)
-	if obj.Pkg() == nil || obj.Pkg().Path() != ctx.currentPkgPath {
+	// A bare identifier denotes an object of the local package or of a dot-imported one
+	// (qualified references are handled by selector expressions)
+	if obj.Pkg() == nil {
 		return nil
 	}
+	pkgPath := obj.Pkg().Path()
 
 	switch obj := obj.(type) {
 	case *types.TypeName:
@@ -171,10 +180,10 @@ func findIdentViolation(
 		if obj.Type() != nil && obj.Type().(*types.Signature).Recv() != nil {
 			// Method
 			recvType := util.ExtractTypeName(obj.Type().(*types.Signature).Recv().Type())
-			return findMethodViolation(ctx, ctx.currentPkgPath, recvType, obj.Name(), ident.Pos())
+			return findMethodViolation(ctx, pkgPath, recvType, obj.Name(), ident.Pos())
 		} else {
 			// Function
-			return findFunctionViolation(ctx, ctx.currentPkgPath, obj.Name(), ident.Pos())
+			return findFunctionViolation(ctx, pkgPath, obj.Name(), ident.Pos())
 		}
 	}
 
